@@ -129,7 +129,75 @@ pub fn structural_defect(input: &[u8], toks: &[TextToken]) -> Option<String> {
             prev = Some(off);
         }
     }
-    None
+    grammar_defect(toks)
+}
+
+/// C06 (text half), the GRAMMAR of an accepted tape (Lean: `Gr`, Proofs/TextTapeDomWf.lean; theorem
+/// `C06_text_object_grammar`): the top level and every Object body is, up to its first MixedContainer, a
+/// sequence of `key [Operator] value` with a scalar / parameter key and a value that is a scalar, a container or
+/// `Header container`; Array bodies and the part behind a MixedContainer hold values and bare scalar /
+/// parameter / Operator / MixedContainer tokens; a Header is directly followed by an Array or Object.
+/// Written as a recursive descent over the end links (not the walk of the model).
+pub fn grammar_defect(toks: &[TextToken]) -> Option<String> {
+    fn container_end(t: &TextToken) -> Option<(usize, bool)> {
+        match t {
+            TextToken::Array { end, .. } => Some((*end, false)),
+            TextToken::Object { end, .. } => Some((*end, true)),
+            _ => None,
+        }
+    }
+    // a value starting at `i` inside a range ending at `e`: returns the index behind it
+    fn value(toks: &[TextToken], i: usize, e: usize, depth: usize) -> Result<usize, String> {
+        if i >= e { return Err(format!("value expected at {} but the body ends at {}", i, e)); }
+        match &toks[i] {
+            TextToken::Unquoted(_) | TextToken::Quoted(_) => Ok(i + 1),
+            TextToken::Header(_) => {
+                if i + 1 >= e { return Err(format!("Header at {} is the last token of its body", i)); }
+                match container_end(&toks[i + 1]) {
+                    Some(_) => container(toks, i + 1, e, depth),
+                    None => Err(format!("Header at {} is not followed by a container", i)),
+                }
+            }
+            t if container_end(t).is_some() => container(toks, i, e, depth),
+            other => Err(format!("token {:?} at {} where a value is expected", other, i)),
+        }
+    }
+    fn container(toks: &[TextToken], i: usize, e: usize, depth: usize) -> Result<usize, String> {
+        let (end, is_obj) = container_end(&toks[i]).unwrap();
+        if end <= i || end >= e { return Err(format!("container at {} ends at {} outside its body (..{})", i, end, e)); }
+        if depth > 2000 { return Ok(end + 1); }
+        if is_obj { object_body(toks, i + 1, end, depth + 1)?; } else { items(toks, i + 1, end, depth + 1)?; }
+        Ok(end + 1)
+    }
+    fn items(toks: &[TextToken], mut i: usize, e: usize, depth: usize) -> Result<(), String> {
+        while i < e {
+            match &toks[i] {
+                TextToken::Unquoted(_) | TextToken::Quoted(_) | TextToken::Parameter(_) | TextToken::UndefinedParameter(_)
+                | TextToken::Operator(_) | TextToken::MixedContainer => i += 1,
+                TextToken::End(_) => return Err(format!("End at {} inside a value list", i)),
+                _ => i = value(toks, i, e, depth)?,
+            }
+        }
+        if i != e { return Err(format!("value list runs over its end {} (at {})", e, i)); }
+        Ok(())
+    }
+    fn object_body(toks: &[TextToken], mut i: usize, e: usize, depth: usize) -> Result<(), String> {
+        while i < e {
+            match &toks[i] {
+                TextToken::MixedContainer => return items(toks, i + 1, e, depth),
+                TextToken::Unquoted(_) | TextToken::Quoted(_) | TextToken::Parameter(_) | TextToken::UndefinedParameter(_) => {}
+                other => return Err(format!("token {:?} at {} where a key is expected", other, i)),
+            }
+            let v = if i + 1 < e && matches!(toks[i + 1], TextToken::Operator(_)) { i + 2 } else { i + 1 };
+            i = value(toks, v, e, depth)?;
+        }
+        if i != e { return Err(format!("object body runs over its end {} (at {})", e, i)); }
+        Ok(())
+    }
+    match object_body(toks, 0, toks.len(), 0) {
+        Ok(()) => None,
+        Err(why) => Some(format!("grammar: {}", why)),
+    }
 }
 
 // ---------------------------------------------------------------------------------------
